@@ -155,6 +155,12 @@ func (s *S) Enter() {
 // goroutine of this run can ever call a hook of the next one.
 func (s *S) WaitAll() { s.wg.Wait() }
 
+// WaitArrived blocks the token holder until every announced child has parked.
+// Children that are NOT interchangeable (they run different code or data)
+// must be spawned one at a time with WaitArrived in between, so that task ids
+// do not depend on the real arrival order.
+func (s *S) WaitArrived() { s.waitArrivals() }
+
 // waitArrivals blocks the token holder until every announced child has parked.
 func (s *S) waitArrivals() {
 	s.mu.Lock()
